@@ -329,6 +329,7 @@ def corr_w3j(run, cases, poison=3.5):
     import spherical
     calcs = {}
     b = Batch(run, "w3j-calculate")
+    b2 = Batch(run, "w3j-calculate-generated-kernel")
     for (a, c, j2, j3, m2, m3) in cases:
         k = (a, c)
         if k not in calcs:
@@ -343,4 +344,6 @@ def corr_w3j(run, cases, poison=3.5):
             e = ["raised"]
         branch = "all-m-zero" if (m2 == 0 and m3 == 0) else ("out-of-range" if abs(m2) > j2 or abs(m3) > j3 else ("single" if j2 + j3 == max(abs(j2 - j3), abs(m2 + m3)) else "general"))
         b.add(f"w3j {a + c + 1} {j2} {j3} {m2} {m3} {fbits(poison)}", e, {"cap": [a, c], "j2": j2, "j3": j3, "m2": m2, "m3": m3}, branch)
-    return b.flush()
+        if e != ["zerodiv"]:      # (a float division by zero raises in numba's Python error model; the generated text has no exceptions but the one `raise`)
+            b2.add(f"genw3j {a + c + 1} {j2} {j3} {m2} {m3} {fbits(poison)}", e, {"cap": [a, c], "j2": j2, "j3": j3, "m2": m2, "m3": m3, "model": "generated"}, branch)
+    return b.flush() + b2.flush()
